@@ -27,6 +27,7 @@ type Obligation struct {
 	PC     []*Term
 	Cond   *Term // must hold under PC
 	Detail string
+	Ident  []*Term // terms found equal by syntactic identity (Cond folded to true)
 }
 
 type pathEnd struct {
@@ -83,6 +84,9 @@ type Exec struct {
 	panicOblig bool // record implicit-panic obligations
 	globalW    map[string]bool
 	globalR    map[string]bool
+	loopFuncs  map[string]bool
+	inStep     int
+	identSeen  []*Term
 }
 
 type frame struct {
@@ -118,6 +122,8 @@ func (e *Exec) resetPath(prefix []decision) {
 	e.unknownBr = 0
 	e.notes = nil
 	e.output = map[string][]Value{}
+	e.inStep = 0
+	e.identSeen = nil
 }
 
 type PathResult struct {
@@ -344,8 +350,12 @@ func (e *Exec) mustHold(c *Term, kind, detail string) {
 
 func (e *Exec) Assert(name string, c *Term) {
 	c = e.foldConc(c)
-	e.obligations = append(e.obligations, Obligation{Name: name, Kind: "assert",
-		PC: append([]*Term(nil), e.pcs...), Cond: c})
+	o := Obligation{Name: name, Kind: "assert", PC: append([]*Term(nil), e.pcs...), Cond: c}
+	if c.IsTrue() {
+		o.Ident = e.identSeen
+	}
+	e.identSeen = nil
+	e.obligations = append(e.obligations, o)
 }
 
 // ---------------------------------------------------------------------------
@@ -396,6 +406,10 @@ func (e *Exec) callFunc(fn *ssa.Function, args []Value, free []Value) Value {
 		e.unsupported("function without body " + full)
 	}
 	e.funcsSeen[full] = true
+	if name == "Step" && recvNamed(fn) == "CPU" {
+		e.inStep++
+		defer func() { e.inStep-- }()
+	}
 	e.depth++
 	if e.depth > 200 {
 		e.unsupported("call depth exceeded")
@@ -418,6 +432,9 @@ func (e *Exec) runFrame(fr *frame) Value {
 	b := fr.fn.Blocks[0]
 	for {
 		fr.visits[b]++
+		if fr.visits[b] == 2 && e.inStep > 0 {
+			e.loopFuncs[fullName(fr.fn)] = true
+		}
 		if fr.visits[b] > e.unwind {
 			panic(pathEnd{"undecided", fmt.Sprintf("unwinding bound %d exceeded in %s", e.unwind, fr.fn.Name())})
 		}
@@ -657,6 +674,8 @@ func (e *Exec) binop(op token.Token, a, b Value, ta, tb types.Type) Value {
 		}
 		_, signed, _ := intWidth(ta)
 		switch op {
+		case token.EQL:
+			return e.eqT(x, y)
 		case token.ADD:
 			return e.st.Bin(OpAdd, x, y)
 		case token.SUB:
@@ -684,8 +703,6 @@ func (e *Exec) binop(op token.Token, a, b Value, ta, tb types.Type) Value {
 				return e.st.Bin(OpAshr, x, cnt)
 			}
 			return e.st.Bin(OpLshr, x, cnt)
-		case token.EQL:
-			return e.st.Eq(x, y)
 		case token.NEQ:
 			return e.st.Not(e.st.Eq(x, y))
 		case token.LSS:
@@ -744,6 +761,16 @@ func (e *Exec) binop(op token.Token, a, b Value, ta, tb types.Type) Value {
 	return nil
 }
 
+// eqT is Eq that remembers when two non-constant terms were found equal by
+// syntactic identity (evidence: obligations discharged without the solver).
+func (e *Exec) eqT(x, y *Term) *Term {
+	r := e.st.Eq(x, y)
+	if r.IsTrue() && x.op != OpConst && len(e.identSeen) < 64 {
+		e.identSeen = append(e.identSeen, x)
+	}
+	return r
+}
+
 func (e *Exec) shiftCount(y *Term, w int) *Term {
 	if y.w == w {
 		return y
@@ -782,7 +809,7 @@ func (e *Exec) stringEq(x, y *StringV) *Term {
 func (e *Exec) valueEq(a, b Value) *Term {
 	switch x := a.(type) {
 	case *Term:
-		return e.st.Eq(x, b.(*Term))
+		return e.eqT(x, b.(*Term))
 	case *StructV:
 		y := b.(*StructV)
 		r := e.st.True
